@@ -159,8 +159,15 @@ def check_faults(df, date, faults, sh=None):
     fails = []
     for fault in faults:
         data = df
-        for f in (fault if isinstance(fault[0], tuple) else [fault]):
-            data = inject(data, tuple(f))
+        try:
+            for f in (fault if isinstance(fault[0], tuple) else [fault]):
+                data = inject(data, tuple(f))
+        except (TypeError, ValueError, KeyError):
+            # the second fault of a pair cannot be injected into the table the first one left
+            # (e.g. p_id already turned into text): not a case
+            if sh is not None:
+                sh.classes["F-pair-not-injectable"] += 1
+            continue
         ok, exc = rejected(data, date)
         first = fault if not isinstance(fault[0], tuple) else fault[0]
         cls, col, r = first
